@@ -18,7 +18,7 @@ import (
 // the harness as the process named by a pid file ("victim").  It writes its
 // pid to P, appends a line to P.hup on every SIGHUP, answers SIGUSR1 by
 // appending a line to P.ack (so the harness can wait until earlier signals
-// have been handled), exits on SIGTERM and after 25 s at the latest.
+// have been handled), exits on SIGTERM and after 90 s at the latest.
 func StubMain(args []string, spawned bool) int {
 	pidFile := ""
 	for i := 0; i < len(args); i++ {
@@ -44,7 +44,7 @@ func StubMain(args []string, spawned bool) int {
 			_ = f.Close()
 		}
 	}
-	deadline := time.After(25 * time.Second)
+	deadline := time.After(90 * time.Second)
 	for {
 		select {
 		case s := <-ch:
@@ -77,7 +77,7 @@ func startVictim(exe, pidFile string) (*victimProc, error) {
 	}
 	v := &victimProc{cmd: cmd, pid: cmd.Process.Pid, pidFile: pidFile, done: make(chan struct{})}
 	go func() { _ = cmd.Wait(); close(v.done) }()
-	deadline := time.Now().Add(5 * time.Second)
+	deadline := time.Now().Add(20 * time.Second)
 	for {
 		if b, err := os.ReadFile(pidFile); err == nil && strings.TrimSpace(string(b)) == strconv.Itoa(v.pid) {
 			return v, nil
